@@ -995,6 +995,13 @@ def analyse(out, res, unit):
                     lb = label_of(out, s['line_start'])
                 if lb:
                     label = lb
+            if o.get('kind') in ('prelude', 'tmpl') and label is None:
+                # a clause of a boundary mirror that names the property it stands for (a label on the clause's own lines, nothing inherited)
+                for ln in range(s['line_start'], s.get('line_end', s['line_start']) + 1):
+                    m = LABEL_RE.search(out.lines[ln - 1]) if ln - 1 < len(out.lines) else None
+                    if m:
+                        label = m.group(1).strip()
+                        break
             if o.get('kind') == 'src' and site is None:
                 site = (o['file'], o['line'], out.lines[s['line_start'] - 1].strip())
         props = None
